@@ -131,6 +131,32 @@ Theorem c11_leb_signed_prefix_free : forall z w r1 r2, (-2^125 <= z < 2^125)%Z -
   enc_s z ++ r1 = enc_s w ++ r2 -> z = w /\ r1 = r2.
 Proof. exact enc_s_prefix_free. Qed.
 
+(* ---- the layout of the code section at byte level (Model/Frame.v): count, then size-prefixed bodies.  The offsets the layout model
+   (Model/CodeMap.v ranges_from, ct_code_section_start) computes from LEB LENGTHS are the offsets in the actual bytes. *)
+From WV Require Import Model.Frame Proofs.Frame.
+Theorem c11_code_payload_reads_back : forall bodies, Forall small bodies -> (lenN bodies < 2 ^ 126)%N ->
+  split_code (code_payload bodies) = Some bodies.
+Proof. exact split_code_payload. Qed.
+
+Theorem c11_body_is_at_its_offset : forall bodies k s t b,
+  nth_error (code_entry_offsets bodies) k = Some (s, t) -> nth_error bodies k = Some b ->
+  takeN (lenN b) (dropN t (code_payload bodies)) = b.
+Proof. exact code_entry_body. Qed.
+
+Theorem c11_size_field_is_at_its_offset : forall bodies k s t b, small b ->
+  nth_error (code_entry_offsets bodies) k = Some (s, t) -> nth_error bodies k = Some b ->
+  exists rest, dec_u (dropN s (code_payload bodies)) = Some (lenN b, b ++ rest).
+Proof. exact code_entry_field_dec. Qed.
+
+Theorem c11_ranges_are_the_byte_extents : forall bodies ids cur, Forall (fun b => (lenN b < 2 ^ 64)%N) bodies ->
+  ranges_from cur (combine ids (map lenN bodies)) = combine ids (entry_ranges cur bodies).
+Proof. exact entry_starts_ranges. Qed.
+
+Theorem c11_code_section_start_is_the_payload_start : forall base bodies, (lenN bodies < 2 ^ 64)%N ->
+  forall s t, nth_error (entry_starts (base + lenN (enc_u (lenN bodies))) bodies) 0 = Some (s, t) ->
+  ct_code_section_start s (lenN bodies) = base.
+Proof. exact code_section_start_link. Qed.
+
 Print Assumptions c11_pairs_one_per_location.
 Print Assumptions c11_inserted_instructions_in_no_pair.
 Print Assumptions c11_pairs_sound.
@@ -157,3 +183,8 @@ Print Assumptions c11_leb_len_minimal.
 Print Assumptions c11_leb_len_monotone.
 Print Assumptions c11_leb_signed_roundtrip.
 Print Assumptions c11_leb_signed_prefix_free.
+Print Assumptions c11_code_payload_reads_back.
+Print Assumptions c11_body_is_at_its_offset.
+Print Assumptions c11_size_field_is_at_its_offset.
+Print Assumptions c11_ranges_are_the_byte_extents.
+Print Assumptions c11_code_section_start_is_the_payload_start.
